@@ -114,7 +114,7 @@ CHECKS = {
          "reference matrices. Every normalising constructor over a ladder of input norms 1 +- 2^-k down to one ulp.",
     design="4/C15", technique="explicit-state BFS over operation histories with bit-exact state merging, against a reference model"),
  "C16": dict(
-    text="Explicit-state breadth-first search over sequences (depth 4 quick / 7 thorough, 4.5e9 states) of ~32-42 mutating calls made through Map views "
+    text="Explicit-state breadth-first search over sequences (depth 5 quick, 3.2e7 states / 7 thorough, 4.5e9 states) of ~32-42 mutating calls made through Map views "
          "(whole-object assign / *= / += / setIdentity / coeffs()=, aliasing variants, every sub-part accessor) over a guarded caller buffer "
          "at vector-aligned and scalar-aligned placement, 11 types; after every call the region equals the same call on a value object "
          "(<= 4 ulp) and every scalar outside the call's documented write range is bitwise unchanged; in every reached state all const "
